@@ -10,7 +10,6 @@ import Manticore.Lemmas.C12Subkeys
 import Manticore.Lemmas.C12PKCS7
 import Manticore.Lemmas.C12Prim
 import Manticore.Lemmas.C12GPP
-import Manticore.Props.C12.Consts
 namespace Manticore.C12
 open Manticore
 
